@@ -110,6 +110,17 @@ def rule_sites(ctx, rule="C12-sites"):
             if nme in ("repr::heap_buffer::HeapBuffer::new", "repr::heap_buffer::HeapBuffer::with_capacity", "repr::heap_buffer::HeapBuffer::with_exact_capacity"):
                 ctx.ob(rule, r.path, "exact-fit-in-reserve:" + st.label(), False, line=st.line, detail="reserve grows through %s (exact fit): n pushes cost O(n) reallocations" % nme)
         ctx.need(rule, r.path, "growth-sites", n >= 3, "reserve has %d growth sites (in-place + copies expected)" % n, how="%d growth sites" % n)
+    # (2b) wherever else a buffer is reallocated in place (a new fast path, a pre-sizing helper), the
+    # new capacity is the growth rule's; only shrink_to resizes to a requested size
+    for path, root in F.bodies.items():
+        if path not in anchors(F) or root.j["kind"] == "closure" or path == "repr::Repr::reserve" or path.startswith("repr::heap_buffer::HeapBuffer::realloc"):
+            continue
+        if "shrink" in path.rsplit("::", 1)[-1]:
+            continue
+        for st in inlined_sites(root, lambda nm: nm == "repr::heap_buffer::HeapBuffer::realloc"):
+            cap = st.desc(1)
+            ctx.ob(rule, path, "realloc-capacity=growth-rule:" + st.label(), re.match(r"^%s\(" % re.escape(AG), cap) is not None, line=st.line, how="realloc(amortized_growth(..))",
+                   detail="%s grows a buffer in place to %s, not to the growth rule's capacity: repeated appends through this path reallocate every time" % (path, cap))
     # (3) with_additional sizes the block by the rule
     w = F.bodies.get("repr::heap_buffer::HeapBuffer::with_additional")
     if w:
